@@ -36,7 +36,8 @@ def op_close(sim, ep, target, size, fin):
     codes = (0, 0, 1, 0xA, 0x100, 0x1234, (1 << 62) - 1)
     code = codes[target % len(codes)]
     ftype = (None, None, 0, 6, 0x1C, 0x3FFF)[size % 6]
-    reason = ("", "bye", "x" * 200, "éè中" * 10, "y" * 1500)[(size // 7) % 5]
+    # (the last one holds lone surrogates: a str that has no UTF-8 encoding)
+    reason = ("", "bye", "x" * 200, "éè中" * 10, "y" * 1500, "a\udcff\ud800b")[(size // 7) % 6]
     sim.k.trace("op", ep.name, "close", code, ftype, len(reason))
     sim.op_log.append((round(sim.k.now, 6), ep.name, "close", code, ftype, len(reason)))
     ep.api("close", code, ftype, reason)
